@@ -18,7 +18,28 @@ def extract(repo):
         raise NotFound("free(*key_secret) in aws_readkeys.c")
     before = src[:f.start()]
     blk = before[before.rfind("err1"):] if "err1" in before else before[-400:]
-    wipes = re.search(r"insecure_memzero\s*\(\s*\*\s*key_secret\s*,\s*strlen\s*\(\s*\*\s*key_secret\s*\)\s*\)\s*;", blk) is not None
+    # read the wipe or refuse: `insecure_memzero(*key_secret, strlen(*key_secret))` up to white space,
+    # redundant parentheses and a (size_t) cast means "wiped"; no insecure_memzero that mentions
+    # key_secret at all means "not wiped"; anything else (another size expression, a temporary) is
+    # not understood here and the pinned answer + the observation at the real free() decide
+    calls = re.findall(r"insecure_memzero\s*\(([^;]*)\)\s*;", blk)
+    calls = [c for c in calls if "key_secret" in c]
+    if not calls:
+        wipes = False
+    else:
+        def norm(t):
+            t = re.sub(r"\s+", "", t).replace("(size_t)", "")
+            prev = None
+            while prev != t:
+                prev = t
+                t = re.sub(r"\(\((strlen\(\*key_secret\))\)\)", r"(\1)", t)
+                t = re.sub(r",\((strlen\(\*key_secret\))\)$", r",\1", t)
+                t = re.sub(r"^\(\*key_secret\),", "*key_secret,", t)
+            return t
+        if len(calls) == 1 and norm(calls[0]) == "*key_secret,strlen(*key_secret)":
+            wipes = True
+        else:
+            raise NotFound("the wipe of *key_secret on the error path is not in a form this module reads: " + calls[0].strip()[:80])
     out = HEADER
     out += coq_def_list("readkeys_name_id", concat_literals(names[0][0]))
     out += coq_def_list("readkeys_name_secret", concat_literals(names[1][0]))
